@@ -127,7 +127,9 @@ func (c *checker) overlapCase(cfg compCfg, dyn bool, idx int, rng *rand.Rand) {
 	if dyn {
 		dynHeaders = []string{"region"}
 	}
-	u, err := newFwdUnit(cfg, srv.URL, 1+idx%3, 3*time.Second, dynHeaders...)
+	// 10 s window: the first retry still comes after 0.25-0.75 s, but a loaded machine must not make the
+	// forwarder give up (dropping a batch after the window is C15's subject, not this check's)
+	u, err := newFwdUnit(cfg, srv.URL, 1+idx%3, 10*time.Second, dynHeaders...)
 	if err != nil {
 		r.Violation("rig-setup:overlap", err.Error(), replay)
 		return
@@ -197,6 +199,23 @@ func (c *checker) overlapCase(cfg compCfg, dyn bool, idx int, rng *rand.Rand) {
 		} else {
 			lastOtherAt = i
 		}
+	}
+	// If the forwarder never re-sent a failed body and nothing was rejected, it gave up (or is still waiting):
+	// nothing to judge about the bytes of a retry that does not exist.
+	nonFaultRaw, rejectedAny := 0, false
+	for _, a := range as {
+		if a.Fault == "" {
+			if a.Path == "/v2/raw" {
+				nonFaultRaw++
+			}
+			if !ok2xx(a.Status) {
+				rejectedAny = true
+			}
+		}
+	}
+	if len(faulted) != nA || (nonFaultRaw < nA+nB && !rejectedAny) {
+		r.Inconclusive("overlap-no-retry-within-window")
+		return
 	}
 	where := fmt.Sprintf("config %s, %s: batch 1 (%d series, %d bodies, first attempts answered 503), then batch 2 (%d series, %d bodies) and an event during batch 1's back-off; requests seen by the server: [%s]; dispatched %d maps, %d events", cfg.Name, variant, len(wantA), nA, len(wantB), nB, strings.Join(first(desc, 14), "; "), len(maps), len(events))
 	// what is re-sent for a body of batch 1 must be that body
@@ -317,6 +336,7 @@ func anyBefore(as []attempt, ridB, ridE string, limit int) bool {
 func (c *checker) overlapWave(wave int, cfgs []compCfg) {
 	r := c.r
 	r.Case("overlap wave %d: %d configurations x {one body, dynamic headers}", wave, len(cfgs))
+	// at most eight cases at a time: each runs its own server and forwarder and must get its retry out in time
 	var wg sync.WaitGroup
 	k := 0
 	for _, cfg := range cfgs {
@@ -330,6 +350,9 @@ func (c *checker) overlapWave(wave int, cfgs []compCfg) {
 				defer wg.Done()
 				c.overlapCase(cfg, dyn, idx, rng)
 			}()
+			if k%8 == 0 {
+				wg.Wait()
+			}
 		}
 	}
 	wg.Wait()
